@@ -60,6 +60,16 @@ class C18Episode(Episode):
         self.by_req = {}           # req idx -> [(pid, sig, effect)]
         self.refs = {}             # req idx -> reference computed at dispatch
         w.dispatch_hooks.append(self.on_dispatched)
+        self.removed_names = set()
+
+        def on_reply(r, ent):
+            o = ent[5]
+            if r.cmd == 'rm' and r.wname and isinstance(o, dict) and \
+                    o.get('status') == 'ok':
+                self.removed_names.add(r.wname.lower())
+            elif r.cmd == 'add' and r.wname:
+                self.removed_names.discard(r.wname.lower())
+        w.reply_hooks.append(on_reply)
         orig = w._around_dispatch
 
         def around(cb, frames):
@@ -137,6 +147,16 @@ class C18Episode(Episode):
         if r is not None:
             self.by_req.setdefault(ridx, []).append(
                 (entry['pid'], entry['sig'], entry['effect'], entry['via']))
+        if r is not None and r.cmd in ('signal', 'kill') and r.wname and \
+                r.wname.lower() in getattr(self, 'removed_names', ()):
+            # the named watcher was removed (rm with nostop): its former
+            # workers are nobody's workers any more
+            self.viol('signal_to_non_worker',
+                      '%s request naming the removed watcher %r signalled '
+                      'pid %s (signal %s)' % (r.cmd, r.wname, entry['pid'],
+                                              entry['sig']),
+                      once=('rmw', r.idx), target='former_worker')
+            return
         # confinement, judged at delivery time
         root = self.root_of(entry['pid'])
         if root is None:
@@ -548,6 +568,20 @@ class C18(Prop):
                          'waiting': False, 'place': 'now', 'sync': True}])
             else:
                 ops.append({'op': 'quiet', 'checks': rng.choice([0, 1])})
+        if rng.random() < 0.08:
+            # a watcher is removed and its workers are left running (rm with
+            # nostop): requests that go on naming it reach nobody
+            wr = rng.randrange(nw)
+            ops.append({'op': 'req', 'cmd': 'rm', 'w': wr,
+                        'props': {'nostop': True}, 'waiting': True,
+                        'place': 'now', 'sync': True, 'c18_rm': True})
+            for _ in range(rng.choice([1, 2, 3])):
+                cmd = rng.choice(['signal', 'signal', 'kill'])
+                props = {'signum': rng.choice([15, 10, 'term', 'usr1'])}
+                if rng.random() < 0.4:
+                    props['pid'] = {'w': wr, 'j': rng.randrange(2)}
+                ops.append({'op': 'req', 'cmd': cmd, 'w': wr, 'props': props,
+                            'waiting': False, 'place': 'now', 'sync': True})
         return {'cfg': cfg, 'ops': ops}
 
     @staticmethod
